@@ -2251,3 +2251,143 @@ Proof.
   - exists (EReq 0 0 true). eexists. split; [vm_compute; left; reflexivity|vm_compute; left; reflexivity].
   - do 2 eexists. split; [vm_compute; reflexivity|vm_compute; left; reflexivity].
 Qed.
+
+(** * Concurrent calls of one done function
+
+    [LRelBegin i] is the check-and-set of the Once of thread i's done function;
+    any goroutine may execute it at any time.  Only one caller ever runs the
+    function under the Once ([LRelease i]): every other call, wherever it is
+    scheduled -- before, between or after the first caller's two steps -- is
+    the identity on the state. *)
+
+Definition run_ok (t : thread) : Prop :=
+  t_run t = true -> exists h c, t_pc t = PRet (RConn h) /\ t_obj t = Some c.
+
+Definition run_inv (s : state) : Prop := forall i t, thr s i = Some t -> run_ok t.
+
+Lemma thr_remove s a : thr (remove s a) = thr s.
+Proof.
+  unfold remove. destruct (conns s a) as [c|]; [|reflexivity].
+  destruct (objs s c) as [o|]; [|reflexivity]. destruct (c_cc o); reflexivity.
+Qed.
+
+Lemma run_inv_upd s (f : nat -> option thread) i t' :
+  run_inv s -> (forall j, f j = upd (thr s) i (Some t') j) -> run_ok t' ->
+  forall j t, f j = Some t -> run_ok t.
+Proof.
+  intros R Hf Hok j t. rewrite Hf. upd_cases j i; [intros E; inversion E; subst; exact Hok|apply R].
+Qed.
+
+Lemma run_inv_step s l s' : run_inv s -> step s l = Some s' -> run_inv s'.
+Proof.
+  intros R H. unfold step in H. destruct (panicked s); [discriminate|].
+  destruct l as [i a k|c|c ok|c|c|c|i|i|i|i|i].
+  - destruct (thr s i) eqn:Ei; [discriminate|]. destruct (objs s i); [discriminate|].
+    destruct (cancelled s i).
+    + inversion H; subst s'. unfold run_inv; cbn. eapply run_inv_upd; eauto. intros X; discriminate.
+    + destruct (conns s a) as [cid|].
+      * destruct (objs s cid); [|discriminate]. inversion H; subst s'. unfold run_inv; cbn.
+        eapply run_inv_upd; eauto. intros X; discriminate.
+      * inversion H; subst s'. unfold run_inv; cbn. eapply run_inv_upd; eauto. intros X; discriminate.
+  - destruct (objs s c) as [o|]; [|discriminate]. destruct (c_ds o); try discriminate.
+    destruct (c_known o); inversion H; subst s'; exact R.
+  - destruct (objs s c) as [o|]; [|discriminate]. destruct (c_ds o); try discriminate.
+    destruct ok; inversion H; subst s'; exact R.
+  - destruct (objs s c) as [o|]; [|discriminate]. destruct (c_ds o); try discriminate.
+    destruct (cancelled s c); inversion H; subst s'; exact R.
+  - destruct (objs s c) as [o|]; [|discriminate]. destruct (c_ds o); try discriminate.
+    destruct (panicked (remove s (c_addr o))); inversion H; subst s'; unfold run_inv; cbn;
+      rewrite thr_remove; exact R.
+  - destruct (objs s c) as [o|]; [|discriminate]. destruct (c_ds o); try discriminate.
+    inversion H; subst s'; exact R.
+  - destruct (thr s i) as [t|] eqn:Ei; [|discriminate]. destruct (t_pc t) eqn:Ep; try discriminate.
+    inversion H; subst s'. unfold run_inv; cbn. eapply run_inv_upd; eauto.
+    intros X. cbn in X. destruct (R i t Ei X) as (h & c & E & _). congruence.
+  - destruct (thr s i) as [t|] eqn:Ei; [|discriminate]. destruct (t_pc t) eqn:Ep; try discriminate.
+    destruct (t_obj t) as [c|] eqn:Eo; [|discriminate]. destruct (objs s c) as [o|]; [|discriminate].
+    destruct (c_ready o); [|discriminate].
+    assert (Hnr : t_run t = false).
+    { destruct (t_run t) eqn:Er; [|reflexivity]. destruct (R i t Ei Er) as (h & c' & E & _). congruence. }
+    destruct (c_err o); inversion H; subst s'; unfold run_inv; cbn; eapply run_inv_upd; eauto;
+      intros X; cbn in X; congruence.
+  - destruct (thr s i) as [t|] eqn:Ei; [|discriminate]. destruct (t_pc t) as [| |[e|h]] eqn:Ep; try discriminate.
+    + inversion H; subst; exact R.
+    + destruct (t_obj t) as [c|] eqn:Eo; [|discriminate].
+      destruct (t_once t || t_run t); inversion H; subst s'; [exact R|].
+      unfold run_inv; cbn. eapply run_inv_upd; eauto. intros _. cbn. eauto.
+  - destruct (thr s i) as [t|] eqn:Ei; [|discriminate]. destruct (t_pc t) as [| |[e|h]] eqn:Ep; try discriminate.
+    + inversion H; subst; exact R.
+    + destruct (t_obj t) as [c|] eqn:Eo; [|discriminate].
+      destruct (t_once t); [inversion H; subst; exact R|].
+      destruct (t_run t) eqn:Er; [|discriminate]. cbn [negb] in H.
+      destruct (objs s c) as [o|]; [|discriminate].
+      assert (Hok : run_ok (with_once t)) by (intros _; cbn; eauto).
+      destruct (Z.leb _ 0); inversion H; subst s'; unfold run_inv; cbn; try rewrite thr_remove; cbn;
+        eapply run_inv_upd; eauto.
+  - inversion H; subst s'; exact R.
+Qed.
+
+Lemma run_inv_reachable s : reachable s -> run_inv s.
+Proof.
+  apply invariant_induction.
+  - intros i t E. discriminate.
+  - intros s0 l s' _ R H. eapply run_inv_step; eauto.
+Qed.
+
+(** a call of the done function of thread i that finds its Once entered (by a
+    caller that may still be waiting for m.mu) or finished changes nothing *)
+Theorem concurrent_release_noop s i t :
+  reachable s -> thr s i = Some t -> t_run t = true \/ t_once t = true ->
+  step s (LRelBegin i) = Some s.
+Proof.
+  intros H Ht Hor. pose proof (inv_reachable s H) as I.
+  unfold step. rewrite (i_np s I), Ht.
+  destruct Hor as [Hr|Ho].
+  - destruct (run_inv_reachable s H i t Ht Hr) as (h & c & -> & ->). rewrite Hr, orb_true_r. reflexivity.
+  - pose proof (i_thread s I i t Ht) as Hto. unfold thread_ok in Hto.
+    destruct (t_obj t) as [c|].
+    + destruct Hto as (o & _ & _ & Hp). destruct (t_pc t) as [| |r]; try congruence.
+      destruct Hp as (_ & _ & Hx). destruct (Hx Ho) as [h ->]. now rewrite Ho.
+    + destruct Hto as [-> _]. reflexivity.
+Qed.
+
+(** the function under the Once runs at most once: its (only effective) run
+    marks the Once finished, after which both steps are identities
+    ([double_release_noop], [concurrent_release_noop]) *)
+Theorem release_runs_once s i t h s' :
+  reachable s -> thr s i = Some t -> t_pc t = PRet (RConn h) -> t_once t = false ->
+  step s (LRelease i) = Some s' ->
+  t_run t = true /\ exists t', thr s' i = Some t' /\ t_once t' = true /\
+  step s' (LRelease i) = Some s' /\ step s' (LRelBegin i) = Some s'.
+Proof.
+  intros H Ht Hp Hon Hs.
+  assert (Hr' : reachable s') by (eapply reachable_step; eauto).
+  pose proof (inv_reachable s H) as I.
+  assert (Hrun : t_run t = true).
+  { unfold step in Hs. rewrite (i_np s I), Ht, Hp, Hon in Hs. destruct (t_obj t); [|discriminate].
+    destruct (t_run t); [reflexivity|discriminate]. }
+  split; [exact Hrun|].
+  assert (E : exists t', thr s' i = Some t' /\ t_once t' = true).
+  { unfold step in Hs. rewrite (i_np s I), Ht, Hp, Hon, Hrun in Hs. cbn [negb] in Hs.
+    destruct (t_obj t) as [c|]; [|discriminate]. destruct (objs s c) as [o|]; [|discriminate].
+    destruct (Z.leb _ 0); inversion Hs; subst s'; try rewrite thr_remove; cbn; rewrite upd_same; eauto. }
+  destruct E as (t' & Ht' & Ho'). exists t'. repeat split; auto.
+  - eapply double_release_noop; eauto.
+  - eapply concurrent_release_noop; eauto.
+Qed.
+
+(** non-vacuity: two callers enter the Once of thread 0 while thread 1 also
+    holds the connection; whatever the order, one decrement *)
+Example ex_concurrent_release :
+  let s := st_of [LReq 0 0 true; LSpawn 0; LReq 1 0 true; LPass 0; LPass 1; LDialRet 0 true; LWait 0; LWait 1;
+                  LRelBegin 0; LRelBegin 0]%nat in
+  reachable s /\ (exists t, thr s 0%nat = Some t /\ t_run t = true /\ t_once t = false /\
+                             t_pc t = PRet (RConn (Some 0%nat))) /\
+  holders s 0 = 2%nat /\ step s (LRelBegin 0) = Some s /\
+  (exists s', step s (LRelease 0) = Some s' /\ holders s' 0 = 1%nat /\ close_log s' = []).
+Proof.
+  cbv zeta. split; [ex_reach|]. split; [eexists; repeat split; vm_compute; reflexivity|].
+  split; [vm_compute; reflexivity|]. split.
+  - eapply concurrent_release_noop; [ex_reach|vm_compute; reflexivity|left; vm_compute; reflexivity].
+  - eexists. split; [vm_compute; reflexivity|]. split; vm_compute; reflexivity.
+Qed.
